@@ -596,6 +596,20 @@ def r6(ctx):
             what = "nodes (dfs)" if "Pre" in c.best or "traversal" in c.best else ("rule indices of the node's kind" if "slice::iter::Iter" in c.best else c.best.split("<")[1][:40] if "<" in c.best else c.best)
             ctx.ob("R6", "CombinedScan::scan/loop over %s runs to exhaustion#%d" % (what, nexts.index(c)), not early,
                    "the loop is left only when its iterator returns None" if not early else "the loop can be left early (edge to bb%s): candidates or rules after the exit point are never tried" % early, where=scan.loc(c.line))
+        # every node the traversal yields is looked up in the table: no path from the Some arm of the traversal's next() back to
+        # the loop head avoids the lookup (a `continue` on some node property — named-ness, leaf-ness, text — placed before the
+        # lookup is a second, unsound prefilter: Pattern::potential_kinds may name anonymous token kinds, e.g. for `pass`/`debugger`)
+        if gets:
+            from ..query import path_avoiding
+            dfs_next = [c for c in nexts if "slice::iter::Iter" not in c.best and scan.dominates(c.bb, gets[0].bb)]
+            ctx.ob("R6", "CombinedScan::scan/traversal loop found", bool(dfs_next), "the loop whose next() dominates the kind lookup", where=scan.loc())
+            for c in dfs_next[-1:]:
+                arms = option_arms(scan, c)
+                skipping = [s for s in arms["some"] if path_avoiding(scan, s, [gets[0].bb], [c.bb])]
+                ctx.ob("R6", "CombinedScan::scan/every traversed node is looked up", bool(arms["some"]) and not skipping,
+                       "every path from the traversal's Some arm to the next iteration passes the kind_rule_mapping lookup" if not skipping else
+                       "a node can be skipped before the kind_rule_mapping lookup (path from bb%s back to the loop head avoiding the lookup): "
+                       "a second prefilter in front of the kind index drops matches whose kind is indexed" % skipping, where=scan.loc(c.line))
         # the None arm of the table lookup only skips (continue): never returns / breaks
         if gets:
             arms = option_arms(scan, gets[0])
